@@ -122,6 +122,8 @@ pub struct Scen {
     pub chg: Vec<bool>,
     /// (kind, member, variant)
     pub ops: Vec<(u8, usize, u8)>,
+    /// number of keys of every dataset (1 except in the shared-pool family)
+    pub nkeys: usize,
 }
 
 fn is_resource(k: u8) -> bool {
@@ -137,6 +139,7 @@ impl Scen {
             mem: x.nth(0).list().iter().map(|v| v.int().clamp(0, 5) as u8).collect(),
             chg: x.nth(1).list().iter().map(|v| v.int() != 0).collect(),
             ops: x.nth(2).list().iter().map(|o| (o.nth(0).int().clamp(0, 7) as u8, o.nth(1).int().max(0) as usize, o.nth(2).int().clamp(0, 9) as u8)).collect(),
+            nkeys: if x.nth(4).int() == 2 { x.nth(5).int().clamp(1, 200) as usize } else { 1 },
         }
     }
     fn to_sx_free(&self) -> Sx {
@@ -184,7 +187,7 @@ struct Got {
 
 pub struct Ctx {
     dir: PathBuf,
-    solo: RefCell<HashMap<(Vec<u8>, Vec<bool>, (u8, usize, u8)), Got>>,
+    solo: RefCell<HashMap<(Vec<u8>, Vec<bool>, usize, (u8, usize, u8)), Got>>,
     /// stores with many annotations for the parallel adaptors, by size
     big: RefCell<HashMap<usize, std::rc::Rc<AnnotationStore>>>,
 }
@@ -255,10 +258,16 @@ impl Ctx {
                         }
                         member_file(i, *k)
                     },
-                    format!(
-                        "{{\"@type\":\"AnnotationDataSet\",\"@id\":\"m{}\",\"keys\":[{{\"@type\":\"DataKey\",\"@id\":\"k\"}}],\"data\":[{{\"@type\":\"AnnotationData\",\"@id\":\"D{}\",\"key\":\"k\",\"value\":{{\"@type\":\"String\",\"value\":\"v\"}}}}]}}",
-                        i, i
-                    ),
+                    {
+                        // first key "k" with data D<i> (used by the annotations), then k1.. with data of their own
+                        let mut keys = String::from("{\"@type\":\"DataKey\",\"@id\":\"k\"}");
+                        let mut data = format!("{{\"@type\":\"AnnotationData\",\"@id\":\"D{}\",\"key\":\"k\",\"value\":{{\"@type\":\"String\",\"value\":\"v\"}}}}", i);
+                        for j in 1..sc.nkeys {
+                            keys.push_str(&format!(",{{\"@type\":\"DataKey\",\"@id\":\"k{}\"}}", j));
+                            data.push_str(&format!(",{{\"@type\":\"AnnotationData\",\"@id\":\"D{}_{}\",\"key\":\"k{}\",\"value\":{{\"@type\":\"String\",\"value\":\"value {}\"}}}}", i, j, j, j));
+                        }
+                        format!("{{\"@type\":\"AnnotationDataSet\",\"@id\":\"m{}\",\"keys\":[{}],\"data\":[{}]}}", i, keys, data)
+                    },
                 )?,
                 _ => {}
             }
@@ -285,7 +294,11 @@ impl Ctx {
                     store.add_resource(TextResourceBuilder::new().with_id(id).with_filename(member_file(i, 2))).map_err(e)?;
                 }
                 3 => {
-                    store.add_dataset(AnnotationDataSetBuilder::new().with_id(id).with_key_value_id("k", "v", format!("D{}", i))).map_err(e)?;
+                    let mut builder = AnnotationDataSetBuilder::new().with_id(id).with_key_value_id("k", "v", format!("D{}", i));
+                    for j in 1..sc.nkeys {
+                        builder = builder.with_key_value_id(format!("k{}", j), format!("value {}", j), format!("D{}_{}", i, j));
+                    }
+                    store.add_dataset(builder).map_err(e)?;
                 }
                 _ => {
                     store.add_dataset(AnnotationDataSetBuilder::new().with_filename(member_file(i, *k))).map_err(e)?;
@@ -348,7 +361,7 @@ impl Ctx {
     }
 
     fn solo(&self, sc: &Scen, op: (u8, usize, u8)) -> Got {
-        let key = (sc.mem.clone(), sc.chg.clone(), op);
+        let key = (sc.mem.clone(), sc.chg.clone(), sc.nkeys, op);
         if let Some(g) = self.solo.borrow().get(&key) {
             return g.clone();
         }
@@ -459,6 +472,53 @@ impl Ctx {
         Ok((results, files))
     }
 
+    /// Readers whose calls run as jobs on ONE shared rayon pool (how = 0: every reader is an
+    /// ordinary thread that hands each call to the pool with install(); how = 1: all calls of all
+    /// readers are spawned into one pool scope).  Every call is compared with the solo result; per
+    /// reader the first deviating result is kept.
+    fn run_pool(&self, sc: &Scen, workers: usize, rounds: usize, how: u8) -> Result<(Vec<Got>, Vec<i64>, u64), String> {
+        let solos: Vec<Got> = sc.ops.iter().map(|op| self.solo(sc, *op)).collect();
+        let store = self.build(sc)?;
+        let pool = rayon::ThreadPoolBuilder::new().num_threads(workers).build().map_err(|x| x.to_string())?;
+        let deviating: Mutex<Vec<Option<Got>>> = Mutex::new(vec![None; sc.ops.len()]);
+        let ncalls = std::sync::atomic::AtomicU64::new(0);
+        let one_call = |i: usize| {
+            let got = guard(|| run_op(&store, sc, sc.ops[i])).unwrap_or(Got { tokens: vec![-1], text: String::new() });
+            ncalls.fetch_add(1, Ordering::Relaxed);
+            if got != solos[i] {
+                let mut d = deviating.lock().unwrap_or_else(|e| e.into_inner());
+                if d[i].is_none() {
+                    d[i] = Some(got);
+                }
+            }
+        };
+        if how == 0 {
+            std::thread::scope(|scope| {
+                for i in 0..sc.ops.len() {
+                    let (pool, one_call) = (&pool, &one_call);
+                    scope.spawn(move || {
+                        for _ in 0..rounds {
+                            pool.install(|| one_call(i));
+                        }
+                    });
+                }
+            });
+        } else {
+            pool.scope(|s| {
+                for _ in 0..rounds {
+                    for i in 0..sc.ops.len() {
+                        let one_call = &one_call;
+                        s.spawn(move |_| one_call(i));
+                    }
+                }
+            });
+        }
+        let dev = deviating.lock().unwrap_or_else(|e| e.into_inner()).clone();
+        let results: Vec<Got> = dev.into_iter().enumerate().map(|(i, d)| d.unwrap_or_else(|| solos[i].clone())).collect();
+        let files = self.file_status(sc);
+        Ok((results, files, ncalls.load(Ordering::Relaxed)))
+    }
+
     fn observe(&self, sc: &Scen, results: &[Got], files: &[i64]) -> Vec<Sx> {
         let mut v: Vec<Sx> = results
             .iter()
@@ -480,6 +540,23 @@ impl Ctx {
         if !sc.well_formed() {
             // not a scenario: the empty scenario (no members, no threads) stands in for it
             return (l(vec![l(vec![]), l(vec![]), l(vec![]), l(vec![])]), vec![l(vec![])], false);
+        }
+        if req.nth(4).int() == 2 {
+            let workers = req.nth(6).int().clamp(1, 16) as usize;
+            let rounds = req.nth(7).int().clamp(1, 5000) as usize;
+            let how = req.nth(8).int().clamp(0, 1) as u8;
+            let mut input = match sc.to_sx(&[]) {
+                Sx::L(v) => v,
+                x => vec![x],
+            };
+            input.extend(vec![a(2), a(sc.nkeys as i64), a(workers as i64), a(rounds as i64), a(how as i64)]);
+            return match self.run_pool(&sc, workers, rounds, how) {
+                Ok((results, files, _)) => (l(input), self.observe(&sc, &results, &files), sc.ops.len() >= 2 && workers >= 2),
+                Err(m) => {
+                    eprintln!("C20 harness: scenario could not be built: {}", m);
+                    (req.clone(), sc.ops.iter().map(|_| l(vec![l(vec![a(-6)]), a(0), a(1)])).chain(std::iter::once(l(vec![a(-6)]))).collect(), false)
+                }
+            };
         }
         if req.nth(4).int() != 0 {
             return match self.run_free(&sc) {
@@ -931,7 +1008,7 @@ fn self_check(ctx: &Ctx) {
     // the set-up really produces the changed flags the scenario asks for
     for k in [1u8, 2, 4] {
         for c in [false, true] {
-            let sc = Scen { mem: vec![k], chg: vec![c], ops: vec![(1, 0, 0)] };
+            let sc = Scen { mem: vec![k], chg: vec![c], ops: vec![(1, 0, 0)], nkeys: 1 };
             match ctx.flushes(&sc, 0) {
                 Ok(f) if f == c => {}
                 other => panic!("C20 harness self-check: member kind {} with changed={} -> stand-off file rewritten: {:?}", k, c, other),
@@ -964,7 +1041,7 @@ pub fn generate(out: &mut Out, tier: &str, seed: u64) {
                 if pool[x].0 == 0 && pool[y].0 == 0 && pool[x].2 != pool[y].2 {
                     continue;
                 }
-                let sc = Scen { mem: mem.clone(), chg: chg.clone(), ops: vec![pool[x], pool[y]] };
+                let sc = Scen { mem: mem.clone(), chg: chg.clone(), ops: vec![pool[x], pool[y]], nkeys: 1 };
                 out.count_n("scenarios_two_threads", 1);
                 let e = explore(&ctx, out, &sc, cap, "two_threads_all_schedules");
                 if !e.complete {
@@ -986,7 +1063,7 @@ pub fn generate(out: &mut Out, tier: &str, seed: u64) {
                 if first.0 == 6 && y.0 == 5 {
                     continue;
                 }
-                let sc = Scen { mem: mem.clone(), chg: chg.clone(), ops: vec![first, *y] };
+                let sc = Scen { mem: mem.clone(), chg: chg.clone(), ops: vec![first, *y], nkeys: 1 };
                 out.count_n("scenarios_two_threads", 1);
                 let e = explore(&ctx, out, &sc, if thorough { 1_500 } else { 100 }, "two_threads_all_schedules");
                 if !e.complete {
@@ -1003,7 +1080,7 @@ pub fn generate(out: &mut Out, tier: &str, seed: u64) {
         let pool: Vec<(u8, usize, u8)> = vec![(1, 0, 0), (7, 0, 0), (2, b, 0), (3, b, 0), (5, b, 0), (0, 0, 0)];
         for x in 0..pool.len() {
             for y in x..pool.len() {
-                let sc = Scen { mem: mem.clone(), chg: chg.clone(), ops: vec![pool[x], pool[y]] };
+                let sc = Scen { mem: mem.clone(), chg: chg.clone(), ops: vec![pool[x], pool[y]], nkeys: 1 };
                 out.count_n("scenarios_failing_write", 1);
                 let e = explore(&ctx, out, &sc, if thorough { 1_500 } else { 80 }, "two_threads_all_schedules");
                 if !e.complete {
@@ -1028,7 +1105,7 @@ pub fn generate(out: &mut Out, tier: &str, seed: u64) {
                 let pool = op_pool(&mem, &[0]);
                 for x in 0..pool.len() {
                     for y in x..pool.len() {
-                        let sc = Scen { mem: mem.clone(), chg: chg.clone(), ops: vec![pool[x], pool[y]] };
+                        let sc = Scen { mem: mem.clone(), chg: chg.clone(), ops: vec![pool[x], pool[y]], nkeys: 1 };
                         out.count_n("scenarios_two_threads", 1);
                         let core = |o: (u8, usize, u8)| o.0 == 1 || (o.0 == 2 && o.1 == 1);
                         if core(pool[x]) && core(pool[y]) {
@@ -1054,7 +1131,7 @@ pub fn generate(out: &mut Out, tier: &str, seed: u64) {
         for x in 0..pool.len() {
             for y in x..pool.len() {
                 for z in y..pool.len() {
-                    let sc = Scen { mem: mem.clone(), chg: chg.clone(), ops: vec![pool[x], pool[y], pool[z]] };
+                    let sc = Scen { mem: mem.clone(), chg: chg.clone(), ops: vec![pool[x], pool[y], pool[z]], nkeys: 1 };
                     out.count_n("scenarios_three_threads", 1);
                     if thorough {
                         let e = explore(&ctx, out, &sc, 1_000, "three_threads_all_schedules");
@@ -1089,7 +1166,7 @@ pub fn generate(out: &mut Out, tier: &str, seed: u64) {
         let pool = op_pool(&mem, &[0, 1, 2, 3]);
         let nthreads = 2 + rng.below(2);
         let ops: Vec<(u8, usize, u8)> = (0..nthreads).map(|_| if rng.chance(1, 6) { (5, rng.below(mem.len()), 0) } else if rng.chance(1, 6) { (6, 0, 0) } else { *rng.pick(&pool) }).collect();
-        let sc = Scen { mem, chg, ops };
+        let sc = Scen { mem, chg, ops, nkeys: 1 };
         sample(&ctx, out, &sc, &mut rng, if thorough { 25 } else { 12 }, "larger_store_random_schedule");
         out.count_n("scenarios_random", 1);
     }
@@ -1107,7 +1184,7 @@ pub fn generate(out: &mut Out, tier: &str, seed: u64) {
         let pool = op_pool(&mem, &[0, 1, 2, 3]);
         let nthreads = 2 + rng.below(3);
         let ops: Vec<(u8, usize, u8)> = (0..nthreads).map(|_| if rng.chance(1, 2) { (1, 0, 0) } else if rng.chance(1, 5) { (5, rng.below(mem.len()), 0) } else { *rng.pick(&pool) }).collect();
-        let sc = Scen { mem, chg, ops };
+        let sc = Scen { mem, chg, ops, nkeys: 1 };
         let req = sc.to_sx_free();
         let (i, o, nt) = ctx.exec(&req);
         out.case(&i, &o, nt, &req);
@@ -1133,6 +1210,46 @@ pub fn generate(out: &mut Out, tier: &str, seed: u64) {
         out.count("parallel_adaptors");
     }
 
+    // F. readers whose serialisations run as jobs on ONE shared rayon pool: a worker that waits
+    //    inside one call may run another reader's whole call in the meantime (work stealing), so
+    //    nothing that belongs to one logical call may live in the worker thread across such a wait
+    let rounds = if thorough { 1500 } else { 400 };
+    let mut f = 0usize;
+    for nkeys in [2usize, 3, 8, 24, 100] {
+        for readers in 2..=4usize {
+            for how in 0..=1u8 {
+                f += 1;
+                if !thorough && f % 2 == 0 && nkeys != 24 {
+                    continue;
+                }
+                // stand-off plain-text resource (0), stand-off dataset (1) [+ a second stand-off dataset]
+                let mem: Vec<u8> = if readers == 4 { vec![1, 4, 4] } else { vec![1, 4] };
+                let chg: Vec<bool> = mem.iter().map(|_| false).collect();
+                let mut ops: Vec<(u8, usize, u8)> = vec![(2, 1, 0)];
+                for r in 1..readers {
+                    ops.push(match (r + f) % 3 {
+                        0 => (1, 0, 0),
+                        1 => (3, 0, 0),
+                        _ => (1, 0, 0),
+                    });
+                }
+                if readers >= 3 {
+                    ops[2] = (3, 1, 0);
+                }
+                let sc = Scen { mem, chg, ops, nkeys };
+                let mut v = match sc.to_sx(&[]) {
+                    Sx::L(v) => v,
+                    x => vec![x],
+                };
+                v.extend(vec![a(2), a(nkeys as i64), a(2 + (f % 5) as i64), a(rounds as i64), a(how as i64)]);
+                let req = l(v);
+                let (i, o, nt) = ctx.exec(&req);
+                out.case(&i, &o, nt, &req);
+                out.count("shared_rayon_pool");
+            }
+        }
+    }
+
     if incomplete > 0 {
         // the pool announced as exhaustive in RULE was not enumerated completely: the evidence
         // must not say it was
@@ -1140,6 +1257,6 @@ pub fn generate(out: &mut Out, tier: &str, seed: u64) {
     }
 }
 
-pub const RULE: &str = "Deterministic scheduler over real threads holding &AnnotationStore (blocked at the stam_verif yield points before every access to the serialisation mode and the changed flags; one thread runs at a time); every execution rebuilds the store and its stand-off files under .cache/work/c20/. A (exhaustive, both tiers): for every store with one member (inline / plain-text stand-off / .json stand-off resource, inline / stand-off dataset; changed flag clear and set: 8 stores) every unordered pair of calls out of {store.to_json_string, ToJson::to_json_string(member, store config), inherent member.to_json_string(), ToJson::to_json_string(member, unrelated Config), pure readers: annotation iteration, find_text + reverse lookups, query, .parallel() through rayon}: ALL schedules, enumerated depth-first by re-execution (the generator fails if a pair exceeds the cap). A3: two calls on one thread (ToJson::to_json_string(member) followed by store.to_json_string), and store.to_json_file into a file of the thread's own (read back), each next to every other call on the one-member stores: all schedules up to 100 (thorough 1500), 25 (100) random ones beyond. A4: stores with a stand-off dataset whose file cannot be written (5 stores), pairs out of {store.to_json_string, store.to_json_string twice on one thread, the member calls, a pure reader}: all schedules up to 80 (thorough 1500), 20 (100) random beyond; every call that has to rewrite the file must return Err every time. A2: stores with one resource and one dataset (5 kind combinations x all flag combinations): all schedules up to 800 (thorough 4000), 100 random ones beyond, for pairs of {store serialisation, ToJson(dataset)}; 10 (thorough 100) random schedules for the other pairs. B: three threads on one-member stores: 20 random schedules per triple (quick), all schedules up to 1000 + 300 random beyond (thorough). C: random stores of up to 2+2 members with 2-3 random calls under random schedules. D: free runs - 2-4 threads started together WITHOUT the scheduler (real pre-emption) on stores of 1-5 members. E: the parallel adaptors: stores with 1030 and 4000 (thorough: 1030, 5000, 12000) annotations, rayon pools of 2..8 workers, two reader threads at once, 5 (12) repetitions each, three iterator chains (all annotations; data-filtered via the key; annotations().filter_key_value): len, collect, enumerate/zip fold, find_first, filter+collect of chain.parallel() against the sequential iterator, order included. Per thread: the member forms in the string it obtained and equality of the whole string with the string the same call returns alone on an identical store, compared with the specified solo result and with the model's prediction for the executed schedule; per run: whether every stand-off file still holds its member's content. Non-trivial: a stand-off member exists and at least two threads were scheduled twice or more. distinct = distinct (scenario, schedule) lines.";
+pub const RULE: &str = "Deterministic scheduler over real threads holding &AnnotationStore (blocked at the stam_verif yield points before every access to the serialisation mode and the changed flags; one thread runs at a time); every execution rebuilds the store and its stand-off files under .cache/work/c20/. A (exhaustive, both tiers): for every store with one member (inline / plain-text stand-off / .json stand-off resource, inline / stand-off dataset; changed flag clear and set: 8 stores) every unordered pair of calls out of {store.to_json_string, ToJson::to_json_string(member, store config), inherent member.to_json_string(), ToJson::to_json_string(member, unrelated Config), pure readers: annotation iteration, find_text + reverse lookups, query, .parallel() through rayon}: ALL schedules, enumerated depth-first by re-execution (the generator fails if a pair exceeds the cap). A3: two calls on one thread (ToJson::to_json_string(member) followed by store.to_json_string), and store.to_json_file into a file of the thread's own (read back), each next to every other call on the one-member stores: all schedules up to 100 (thorough 1500), 25 (100) random ones beyond. A4: stores with a stand-off dataset whose file cannot be written (5 stores), pairs out of {store.to_json_string, store.to_json_string twice on one thread, the member calls, a pure reader}: all schedules up to 80 (thorough 1500), 20 (100) random beyond; every call that has to rewrite the file must return Err every time. A2: stores with one resource and one dataset (5 kind combinations x all flag combinations): all schedules up to 800 (thorough 4000), 100 random ones beyond, for pairs of {store serialisation, ToJson(dataset)}; 10 (thorough 100) random schedules for the other pairs. B: three threads on one-member stores: 20 random schedules per triple (quick), all schedules up to 1000 + 300 random beyond (thorough). C: random stores of up to 2+2 members with 2-3 random calls under random schedules. D: free runs - 2-4 threads started together WITHOUT the scheduler (real pre-emption) on stores of 1-5 members. E: the parallel adaptors: stores with 1030 and 4000 (thorough: 1030, 5000, 12000) annotations, rayon pools of 2..8 workers, two reader threads at once, 5 (12) repetitions each, three iterator chains (all annotations; data-filtered via the key; annotations().filter_key_value): len, collect, enumerate/zip fold, find_first, filter+collect of chain.parallel() against the sequential iterator, order included. F: 2-4 readers whose calls (ToJson::to_json_string(dataset), store.to_json_string, inherent resource/dataset to_json_string) run as jobs on ONE shared rayon pool of 2-6 workers (install() from ordinary threads, or all spawned into one pool scope) over stores with a stand-off resource and stand-off datasets of 2, 3, 8, 24, 100 keys, 400 (thorough 1500) rounds per reader, every returned string compared with the solo string. Per thread: the member forms in the string it obtained and equality of the whole string with the string the same call returns alone on an identical store, compared with the specified solo result and with the model's prediction for the executed schedule; per run: whether every stand-off file still holds its member's content. Non-trivial: a stand-off member exists and at least two threads were scheduled twice or more. distinct = distinct (scenario, schedule) lines.";
 
 pub const EXHAUSTIVE: bool = true;
